@@ -89,6 +89,7 @@ def run(prog, chk):
     chk.defer(level_update_table, prog, chk)
     chk.defer(append_chain_table, prog, chk)
     chk.defer(hash_release_table, prog, chk)
+    chk.defer(sentinel_array_rule, prog, chk)
     chk.explanation = (
         "(R4) for every function of the 40 units and every pointer local that receives an object from a producer (derived from the callee's "
         "own body: its out-parameter only ever carries a fresh allocation, a new reference or another producer's result), an allocator or "
@@ -897,3 +898,66 @@ def hash_release_table(prog, chk):
                 chk.ob("C19.hashrelease", inst, got == want,
                        "expected (freed, in the bin%s) = %s; source: %s" % (", references left" if want[2] is not None else "", tuple(x for x in want if x is not None),
                                                                            tuple(x for x in got if x is not None)), loc=fn.loc(), fn=fn, nontrivial=not app_ok or ref == 1)
+
+
+def sentinel_array_rule(prog, chk):
+    """Some destructors walk an array of records up to a sentinel (`for (i = 0; arr[i].oid != NULL; i++) free(arr[i]...)`).  An array
+    that is filled element by element and handed to such a destructor when a step fails is only safe if the elements not reached yet
+    read as the sentinel: the array has to come from a zeroing allocation (KSI_calloc, or KSI_malloc followed by memset on every path).
+    Rule: every local handed to a sentinel-walking destructor is allocated zeroed in that function."""
+    from ksirules.model import walk, is_var, strip
+    chk.rule("C19.sentinel", "an array handed to a destructor that walks it up to a sentinel element comes from a zeroing allocation", floor=1)
+    # destructors that index their first parameter and release what the elements hold
+    walkers = set()
+    for f in prog.all_functions():
+        if not f.params or "*" not in f.params[0]["t"]:
+            continue
+        p0 = f.params[0]["n"]
+        idx_fields, rel = False, False
+        for b, i, m in f.nodes():
+            if m.get("k") == "mem" and not m.get("arrow"):
+                base = strip(m.get("b"))
+                if isinstance(base, dict) and base.get("k") == "idx" and is_var(f.resolve(strip(base["b"])), p0):
+                    idx_fields = True
+        for b, i, c in f.calls():
+            if is_release(c.get("fn")):
+                for a in c["a"]:
+                    for m in walk(f.deep(a)):
+                        if isinstance(m, dict) and m.get("k") == "idx" and is_var(strip(m["b"]), p0):
+                            rel = True
+        if idx_fields and rel:
+            walkers.add(f.name)
+    if not walkers:
+        raise AnalysisBroken("no sentinel-walking destructor found (freeCertConstraintsArray expected)")
+    n = 0
+    for fn in sorted(prog.all_functions(), key=lambda f: (f.unit, f.line)):
+        locs = {l["n"] for l in fn.locals}
+        handed = set()
+        for b, i, c in fn.calls():
+            if c.get("fn") in walkers and c["a"]:
+                a0 = fn.resolve(strip(c["a"][0]))
+                if is_var(a0) and strip(a0)["n"] in locs:
+                    handed.add(strip(a0)["n"])
+        for v in sorted(handed):
+            allocs = []
+            zeroed = False
+            for b, i, m in fn.nodes():
+                if m.get("k") == "asg" and is_var(strip(m["l"]), v):
+                    r = fn.resolve(strip(m["r"]))
+                    while isinstance(r, dict) and r.get("k") in ("cast", "paren"):
+                        r = fn.resolve(strip(r["e"]))
+                    if isinstance(r, dict) and r.get("k") == "call" and r.get("fn") in ("KSI_malloc", "KSI_calloc", "malloc", "calloc", "KSI_realloc", "realloc"):
+                        allocs.append(r["fn"])
+            for b, i, c in fn.calls():
+                if c.get("fn") == "memset" and c["a"] and is_var(fn.resolve(strip(c["a"][0])), v):
+                    zeroed = True
+            if not allocs:
+                continue        # not allocated here (taken from an object): the allocating function is judged
+            n += 1
+            bad = [a for a in allocs if "calloc" not in a] if not zeroed else []
+            chk.ob("C19.sentinel", "%s:%s" % (fn.name, v), not bad,
+                   "%s is allocated zeroed (%s) and handed to %s" % (v, ", ".join(allocs), "/".join(sorted(walkers))) if not bad else
+                   "%s comes from %s and is handed to a destructor that reads its elements up to a sentinel: when a step fails before the array is "
+                   "complete the elements not written yet are read, and what they hold is released" % (v, ", ".join(bad)), loc=fn.loc(), fn=fn)
+    if n < 1:
+        raise AnalysisBroken("C19.sentinel: no array handed to a sentinel-walking destructor found")
